@@ -42,7 +42,13 @@ LEVEL_TEXT = ("Coq proofs about the executable model pag_to_mag_model (three pha
               "the shared oracle msep_dec), by vm_compute (n=4 table-driven per skeleton, soundness of the table proved); "
               "p2m_member_bounded_4_all lifts it to EVERY graph m with V m = 0..n-1 and valid_mag_spec m = true, whatever the "
               "order / duplication of its edge lists (all_mags_covers_every_mag + graph extensionality of every oracle, C09/Ext.v). "
-              "ALL SIZES, CONDITIONAL — p2m_shape_all_sizes_conditional: for every PAG g satisfying the invariants pag_hyps (no self "
+              "ALL SIZES — p2m_shape_all_sizes_chordal_unconditional: for every PAG g satisfying the invariants pag_hyps whose circle "
+              "component is chordal (has a perfect elimination ordering), the result has no directed cycle, no bidirected edge "
+              "between a node and its ancestor, and every unshielded collider of the result is a collider of g; it rests on "
+              "meek4_holds_on_chordal (Meek 1995 Thm 4 on chordal skeletons, all sizes, C09/Meek4Chordal.v: a PDAG closed under "
+              "R1-R4 with a v-structure-free extension keeps one after hand-orienting any undirected edge; induction on the node "
+              "set, re-inserting a simplicial node right after its last-eliminated directed child). Earlier conditional forms kept: "
+              "p2m_shape_all_sizes_conditional: for every PAG g satisfying the invariants pag_hyps (no self "
               "loop, an o-o pair carries no other edge, no -o edge, Zhang 2008 Lemma 3.3.1 for o-o edges, directed layer acyclic, no "
               "almost directed cycle) and the hypothesis rounds_extendable (at each round of the model's run the graph with the "
               "hand-oriented edge has a v-structure-free consistent DAG extension) the result has no directed cycle, no bidirected "
@@ -71,20 +77,17 @@ LEVEL_TEXT = ("Coq proofs about the executable model pag_to_mag_model (three pha
               "BY CORRESPONDENCE — the implementation's own result on PAGofMAG(n) and on MARKS(n) passes the same oracle "
               "verdicts (witness validity, not identity), argument unchanged; the unbounded membership clause (Zhang 2008 Thm 2) "
               "is stated (p2m_member_full) and not attempted.")
-LEVEL_NOTE = ("MISSING for an unconditional all-sizes shape theorem: (i) the single statement meek4_on chordal_skel (Meek 1995 Thm 4 on "
-              "chordal skeletons: a PDAG closed under R1-R4 with a v-structure-free extension keeps one after hand-orienting any "
-              "undirected edge u - v as u -> v). Proved: first round (all sizes), cluster skeletons (all sizes), all graphs on <=5 "
-              "nodes (kernel). Also proved for forest skeletons (all sizes). The reduction is now formal "
-              "(meek4_from_eligible): what is missing is eligible_nodes_exist chordal_skel — in a closed v-free-extendable PDAG, for "
-              "every node set R containing an undirected edge a - b, some node other than a is simplicial in R and has no directed "
-              "edge into R; on general chordal skeletons the end of a directed chain need not be simplicial (its undirected "
-              "neighbours need not be pairwise adjacent), which is where the forest / clique arguments stop; "
-              "(ii) pag_hyps for the PAG of every MAG (Zhang 2008 Lemma 3.3.1; kernel-checked n<=3, harness-checked n<=4 and on the "
-              "chordal 5-6 node stream through the booleans pag_hypsb / rounds_ok_b in run_case mode 1); bounded theorems are stated with the boolean oracles (msep_dec; its reflection to the Prop msep is Graph/MSepDec.v, "
+LEVEL_NOTE = ("the hand-orientation loop is fully discharged for all sizes (meek4_holds_on_chordal: no hypothesis on the rounds is "
+              "left). STILL HYPOTHESES of the all-sizes shape theorem: pag_hyps for the PAG of every MAG (Zhang 2008 Lemma 3.3.1 and the "
+              "simple-marks / acyclicity invariants; kernel-checked for every MAG on <=3 nodes, harness-checked on <=4 nodes and on "
+              "the chordal 5-6 node stream through the booleans pag_hypsb / rounds_ok_small_b in run_case mode 1) and chordality of "
+              "the circle component (a perfect elimination ordering; true for PAGs of MAGs, not proved here). The membership clause "
+              "(valid MAG, Markov equivalent to the source MAG; Zhang 2008 Thm 2) is bounded: n<=4 in the kernel. "
+              "bounded theorems are stated with the boolean oracles (msep_dec; its reflection to the Prop msep is Graph/MSepDec.v, "
               "not imported here); which undirected edge the temporary CPDAG yields first is not modelled (any order is covered by "
-              "the structural theorem; membership of the implementation's actual result is checked by the oracle); "
-              "-o edges occur only in the structural stream (no PAG of a MAG without undirected edges has one)")
-TECHNIQUE = "Coq proof (structure/termination unbounded; membership bounded n<=4 by vm_compute) + extracted-oracle correspondence"
+              "the structural theorem and by meek4_holds_on_chordal; membership of the implementation's actual result is checked by "
+              "the oracle); -o edges occur only in the structural stream (no PAG of a MAG without undirected edges has one)")
+TECHNIQUE = "Coq proof (structure, termination and the shape clauses unbounded — Meek Thm 4 on chordal components; membership bounded n<=4 by vm_compute) + extracted-oracle correspondence"
 
 MAG_KINDS = ["none", "->", "<-", "<->"]
 
